@@ -32,8 +32,8 @@ Record same_result (c c' : compiled) : Prop := {
 Definition unit_names (us : list (add_err + tmpl_unit)) : list bstr :=
   flat_map (fun u => match u with inr u => [t_name (tu_template u)] | inl _ => [] end) us.
 Definition file_defines (f : sfile) : list bstr :=
-  match find_namespace (sf_body f) with
-  | inr (ns, ae) => unit_names (file_units (sf_name f) ns ae None (sf_body f))
+  match find_namespace (sfile_body f) with
+  | inr (ns, ae) => unit_names (file_units (sfile_name f) ns ae None (sfile_body f))
   | inl _ => []
   end.
 (* every definition of a template name in the bundle, with its file *)
@@ -51,17 +51,17 @@ Section Errors.
   (* a file does not parse *)
   | BE_parse name msg : In (SrcParseErr name msg) srcs -> bundle_error (EParse name msg)
   (* a file has no namespace where one is due *)
-  | BE_namespace f e : In (SrcOk f) srcs -> find_namespace (sf_body f) = inl e -> bundle_error (EAdd (sf_name f) e)
+  | BE_namespace f e : In (SrcOk f) srcs -> find_namespace (sfile_body f) = inl e -> bundle_error (EAdd (sfile_name f) e)
   (* a template of a file is rejected on its own (soydoc and header params) *)
-  | BE_unit f ns ae e : In (SrcOk f) srcs -> find_namespace (sf_body f) = inr (ns, ae) ->
-      In (inl e) (file_units (sf_name f) ns ae None (sf_body f)) -> bundle_error (EAdd (sf_name f) e)
+  | BE_unit f ns ae e : In (SrcOk f) srcs -> find_namespace (sfile_body f) = inr (ns, ae) ->
+      In (inl e) (file_units (sfile_name f) ns ae None (sfile_body f)) -> bundle_error (EAdd (sfile_name f) e)
   (* a template name has two definitions (in two files, or twice in one) *)
   | BE_duplicate f1 f2 t rest : Permutation (definitions srcs) ((f1, t) :: (f2, t) :: rest) ->
-      bundle_error (EAdd (sf_name f2) (AEDuplicate t (sf_name f1) (sf_name f2)))
+      bundle_error (EAdd (sfile_name f2) (AEDuplicate t (sfile_name f1) (sfile_name f2)))
   (* every file is added, and a template breaks the data-reference rules *)
-  | BE_check r t e : add_files empty_creg srcs = COk r -> In t (r_templates (cr_reg r)) ->
+  | BE_check r t e : add_all_files empty_creg srcs = COk r -> In t (r_templates (cr_reg r)) ->
       check_template ko (find_template (r_templates (cr_reg r))) t = Some e -> bundle_error (ECheck (t_name t) e)
   (* ... or uses a global that is not defined *)
-  | BE_global r t e : add_files empty_creg srcs = COk r -> In t (r_templates (cr_reg r)) ->
+  | BE_global r t e : add_all_files empty_creg srcs = COk r -> In t (r_templates (cr_reg r)) ->
       set_globals_template ko (bg_map bg) t = Some e -> bundle_error (EGlobal (t_name t) e).
 End Errors.
